@@ -625,6 +625,173 @@ class _Client(Owner, asyncssh.SSHClient):
         Owner.__init__(self, log, 'C')
 
 
+# ----------------------------------------------------------- redirected ---
+
+def run_redirected(case) -> CaseResult:
+    """A client process whose stdin (and optionally stdout) is REDIRECTED to
+    an idle socket / pipe, with drain(), wait() and wait_closed() pending;
+    then the channel or connection ends in every way.  Every awaited call
+    must be done at quiescence and no task may be left."""
+
+    import os
+    import socket
+    log: List[Any] = []
+    harness = memwire.Harness()
+    gates = Gates(harness.loop)
+
+    class Server(Owner, memwire.PwServer):
+        def __init__(self):
+            Owner.__init__(self, log, 'S')
+
+    procs: List[Any] = []
+
+    async def handler(process):
+        procs.append(process)
+        await gates.wait()
+        process.exit(0)
+
+    pair = Pair({'server_factory': Server, 'process_factory': handler,
+                 'encoding': None},
+                {'client_factory': lambda: _Client(log)}, h=harness)
+    h = harness
+    fds: List[Any] = []
+    tasks: List[Any] = []
+    labels = {'source:' + case['source'], 'term:' + case['term']}
+
+    try:
+        pair.handshake()
+
+        if case['source'] == 'socket':
+            a, b = socket.socketpair()
+            fds += [a, b]
+            src: Any = a
+        else:
+            r, w = os.pipe()
+            fds += [w]
+            src = r
+
+        kw: Dict[str, Any] = {'stdin': src, 'encoding': None}
+
+        if case['stdout']:
+            ro, wo = os.pipe()
+            fds += [ro]
+            kw['stdout'] = wo
+            labels.add('stdout-redirected')
+
+        t = h.spawn(pair.c.create_process('cmd', **kw))
+        h.pump_until(t.done)
+
+        if not t.done() or t.exception():
+            raise Violation('setup', 'create_process with redirects: %r' %
+                            (t.exception() if t.done() else 'pending',),
+                            'redirected:setup')
+
+        proc = t.result()
+
+        for what in case['waiters']:
+            coro = {'drain': proc.stdin.drain, 'wait': proc.wait,
+                    'wait_closed': proc.wait_closed}[what]()
+            tasks.append((what, h.spawn(coro)))
+            labels.add('pending:' + what)
+
+        h.pump()
+        term = case['term']
+
+        if term == 'cclose':
+            h.call(pair.c.close)
+        elif term == 'cabort':
+            h.call(pair.c.abort)
+        elif term == 'sclose':
+            h.call(pair.s.close)
+        elif term == 'sabort':
+            h.call(pair.s.abort)
+        elif term == 'cut':
+            h.cut_wire()
+        elif term == 'server-exit':
+            gates.open_all()
+        elif term == 'server-close':
+            h.call(procs[0].close)
+        elif term == 'pclose':
+            h.call(proc.close)
+        elif term == 'source-eof':
+            # the redirected source ends: EOF goes to the server, whose
+            # handler is then released; everything completes normally
+            end = fds.pop(1 if case['source'] == 'socket' else 0)
+
+            if hasattr(end, 'close'):
+                end.close()
+            else:
+                os.close(end)
+
+            h.pump()
+            for _ in range(20):
+                h.step()
+                h.pump()
+            gates.open_all()
+
+        h.pump()
+
+        for _ in range(10):
+            h.step()
+            h.pump()
+
+        gates.open_all()
+        h.pump()
+        hung = sorted(what for what, tk in tasks if not tk.done())
+
+        if hung:
+            raise Violation('hung-waiter', '%s on a process with redirected '
+                            'stdin (%s) still pending at quiescence after %s'
+                            % (hung, case['source'], term),
+                            'hung:redirected:%s:%s' % (hung[0], term))
+
+        if term not in ('server-exit', 'server-close', 'pclose',
+                        'source-eof'):
+            for name, conn in (('client', pair.c), ('server', pair.s)):
+                if not conn.is_closed():
+                    raise Violation('not-closed', '%s connection not closed'
+                                    % name, 'not-closed:' + name)
+        else:
+            h.call(pair.c.close)
+            h.pump()
+
+        alive = [tk for tk in asyncio.all_tasks(h.loop) if not tk.done()]
+
+        if alive:
+            raise Violation('task-left', '%d asyncio tasks still alive: %r' %
+                            (len(alive), [str(tk.get_coro())[:80]
+                                          for tk in alive[:3]]),
+                            'task-left:redirected')
+
+        if h.loop_errors:
+            raise Violation('loop-error', repr(h.loop_errors[0])[:400],
+                            'loop-error:' + str(h.loop_errors[0].get(
+                                'message', ''))[:40])
+
+        return CaseResult(sorted(labels), True,
+                          [case['source'], term, case['waiters'],
+                           case['stdout']])
+    finally:
+        pair.close()
+
+        for f in fds:
+            try:
+                f.close() if hasattr(f, 'close') else os.close(f)
+            except OSError:
+                pass
+
+
+def redirected_cases(tier: str):
+    for source in ('socket', 'pipe'):
+        for term in ('cclose', 'cabort', 'sclose', 'sabort', 'cut',
+                     'server-exit', 'server-close', 'pclose', 'source-eof'):
+            for waiters in (['drain'], ['wait'], ['wait_closed'],
+                            ['drain', 'wait', 'wait_closed']):
+                for stdout in (False, True):
+                    yield {'source': source, 'term': term,
+                           'waiters': waiters, 'stdout': stdout}
+
+
 # ---------------------------------------------------------------- cuts ----
 
 SCRIPTS = [
@@ -726,4 +893,9 @@ FAMILIES = [
            case_timeout=120, timeout_is_violation=True),
     Family('cuts', run_history, enumerate=cut_cases, exhaustive=True,
            case_timeout=120, timeout_is_violation=True),
+    Family('redirected', run_redirected, enumerate=redirected_cases,
+           exhaustive=True, required={'all': ['pending:drain', 'term:cut',
+                                              'source:socket', 'source:pipe',
+                                              'stdout-redirected']},
+           case_timeout=60, timeout_is_violation=True),
 ]
